@@ -78,7 +78,7 @@ fn end_to_end(full: &FullRun, n: u32) -> CheckResult {
 
 fn run(tier: Tier) -> i32 {
     let mut ctx = Ctx::new("C16", tier);
-    ctx.rule = "worker counts n: every n in 1..=N (quick N = 32,768, thorough 262,144) plus proptest n up to 2^22, calculate_scopes compiled from the example's own scope.rs; oracle: n scopes, first starts at (0,1), last ends at (48,49), each starts where the previous ended, from <= to, every endpoint a valid position (turn < river <= 48 or (48,49)). End to end for every n <= 1,024 (thorough 4,096) and sampled larger n: the scopes are given to real evaluators over two fixed configurations exactly as the example does and the concatenated showdowns must equal the unscoped run. Non-trivial = n >= 2; distinct = distinct n.".into();
+    ctx.rule = "worker counts n: every n in 1..=N (quick N = 32,768, thorough 262,144) plus proptest n up to 2^27 (including the neighbourhood of 2^24, where f32 stops representing n exactly), calculate_scopes compiled from the example's own scope.rs; oracle: n scopes, first starts at (0,1), last ends at (48,49), each starts where the previous ended, from <= to, every endpoint a valid position (turn < river <= 48 or (48,49)). End to end for every n <= 1,024 (thorough 4,096) and sampled larger n: the scopes are given to real evaluators over two fixed configurations exactly as the example does and the concatenated showdowns must equal the unscoped run. Non-trivial = n >= 2; distinct = distinct n.".into();
     ctx.assumptions = vec!["end-to-end uses two fixed cheap configurations; the structural conditions are checked for every n".into()];
     ctx.exhaustive = env_scale() >= 1.0;
     let nmax = tier.pick(32_768u64, 262_144u64);
@@ -103,7 +103,7 @@ fn run(tier: Tier) -> i32 {
         ctx.run_random_brief(StreamCfg::new("end_to_end_sampled", CLASSES, cases), || 1u32..20_000, move |n: &u32| end_to_end(&full, *n), |n| json!(n));
     }
     let cases = tier.pick(200, 2_000);
-    ctx.run_random_brief(StreamCfg::new("large_n", CLASSES, cases), || prop_oneof![1u32..(1 << 22), 1u32..100_000], |n: &u32| structural(*n), |n| json!(n));
+    ctx.run_random_brief(StreamCfg::new("large_n", CLASSES, cases), || prop_oneof![3 => 1u32..(1 << 22), 2 => 1u32..100_000, 1 => (1u32 << 24)..(1 << 27), 1 => ((1u32 << 24) - 40)..((1 << 24) + 40)], |n: &u32| structural(*n), |n| json!(n));
     ctx.extra.insert("exhaustive_over".into(), json!(format!("every worker count n in 1..={}", nmax)));
     ctx.finish()
 }
